@@ -35,7 +35,7 @@ func checkC07(c *Ctx) {
 			fns = append(fns, f)
 		}
 	}
-	if len(fns) < 100 {
+	if len(fns) < 60 {
 		c.R.Break("only %d client-side functions found", len(fns))
 	}
 	c.R.Extra["client_functions"] = len(fns)
